@@ -4,7 +4,7 @@ from __future__ import annotations
 import core
 import lockstep as ls
 
-HEADER = ls.HEADER_RESP
+HEADER = ls.HEADER_MON
 
 from lockstep import RK, coq_pkt, responses, grammar_terms
 
@@ -79,7 +79,7 @@ def run(ctx: core.Ctx):
     disagreements += [dict(kind="packet-bytes", **b) for b in pbad if b["kind"].endswith("-bytes")]
     pdecode = [b for b in pbad if b["kind"].endswith("-decode")]
     # ---- oracle: the protocol's response grammar (Model/Resp.v, evaluated in Coq) on the implementation's packets
-    oterms, refs, witness = grammar_terms(drivers)
+    oterms, refs, witness = grammar_terms(drivers, monitor=True)
     oks = core.run_coq_terms(ctx, "c03o", HEADER, oterms, shard=400)
     for ok, (d, cmd, pk) in zip(oks, refs):
         if ok is not True and witness is None:
@@ -101,8 +101,9 @@ def run(ctx: core.Ctx):
              "application outcomes: none / result sets of 1-3 columns and 0-12 rows, sync and async sources, exceptions before and at "
              "every row) replayed step by step on Model/Conn.v; plus 300-row results (sequence wrap) and a failure at every row of a "
              "12-row result, packets larger than the write buffer; the client offers OPTIONAL_RESULTSET_METADATA / QUERY_ATTRIBUTES in "
-             "half of the connections; every response of the implementation is run through the protocol grammar Model/Resp.v inside "
-             "Coq; packets.make_ok / make_eof / make_error / make_column_definition_41 (also as COM_FIELD_LIST) / make_handshake_v10 on "
+             "half of the connections; every response of the implementation - (sequence id, packet) pairs - is run through the "
+             "client-side monitor of Proofs/C03Proofs.v (grammar Model/Resp.v and sequence numbers; the function the theorem "
+             "c03_lockstep_conversation is stated with) inside Coq; application failures in every callback of the command phase; packets.make_ok / make_eof / make_error / make_column_definition_41 (also as COM_FIELD_LIST) / make_handshake_v10 on "
              "random arguments byte for byte against Model/Packets.v and through its reference decoders. distinct = traces",
         samples=[dict(events=drivers[0].events[:12])], distinct=len(drivers),
         extra=dict(traces=len(drivers), commands=kinds, responses_checked=len(oterms), disagreements=len(disagreements), packet_cases=npk,
